@@ -96,17 +96,23 @@ Separate(sep, out) ==
     ELSE [j \in 1..Len(out) |->
             IF out[j].t = "V" /\ out[j].v \in sep.big THEN [out[j] EXCEPT !.t = "I"] ELSE out[j]]
 
-OpFlushSep(st, w, sep) ==
+\* the flush writer rotates to a new table when its 64 MiB target is reached (between user
+\* keys): pieces = the output already cut into tables, registered together as one L0 run
+OpFlushWith(st, w, pieces) ==
     LET sv == Latest(st) IN
     IF sv.sealed = <<>> THEN st
-    ELSE LET out == Separate(sep, FlushOutput(st, w))
+    ELSE LET n   == Len(pieces)
              id  == st.tblId
-             T2  == IF out = <<>> THEN st.tbl ELSE st.tbl @@ (id :> [e |-> out, g |-> 0])
-             run == IF out = <<>> THEN <<>> ELSE <<id>>
-             nsv == [sv EXCEPT !.sealed = <<>>, !.lv = WithNewL0Run(sv.lv, run, T2)]
-             s1  == [st EXCEPT !.tblId = id + 1, !.tbl = T2, !.seq = @ + 1]
+             new == [j \in 1..n |-> id + j - 1]
+             T2  == st.tbl @@ [t \in {id + j - 1 : j \in 1..n} |-> [e |-> pieces[t - id + 1], g |-> 0]]
+             nsv == [sv EXCEPT !.sealed = <<>>, !.lv = WithNewL0Run(sv.lv, new, T2)]
+             s1  == [st EXCEPT !.tblId = id + (IF n = 0 THEN 1 ELSE n), !.tbl = T2, !.seq = @ + 1]
              s2  == Install(s1, nsv, st.seq)
          IN Collect([s2 EXCEPT !.hist = Maintain(@, w)])
+
+OpFlushSep(st, w, sep) ==
+    LET out == Separate(sep, FlushOutput(st, w))
+    IN OpFlushWith(st, w, IF out = <<>> THEN <<>> ELSE <<out>>)
 
 OpFlush(st, w) == OpFlushSep(st, w, NoSep)
 
